@@ -103,7 +103,7 @@ def check(case):
         res.classes.append('spline_' + case['method'])
         if case['vec'] > 1:
             res.classes.append('vec>1')
-        if I.known_spline_xinterp_list(case) or I.known_spline_ycp_list(case):
+        if I.known_spline_xinterp_list(case) or I.known_spline_ycp_list(case) or I.known_spline_bsplines_square(case):
             res.classes.append('known_input')
         res.nontrivial = case['vec'] > 1 and (len(case['splines']) > 1 or case['method'] not in ('slinear',))
     else:
@@ -244,6 +244,10 @@ def strategy(fam):
     def roll(draw, n):
         """uniform integer in 0..n (st.integers is biased towards small values)"""
         return draw(st.sampled_from(range(n + 1)))
+
+    def rare(draw, n):
+        """True with probability about 1/(n+1); not tied to index 0, which Hypothesis over-represents"""
+        return draw(st.sampled_from(range(n + 1))) == (n + 1) // 2
     nz = st.integers(1, 4000).flatmap(lambda n: st.sampled_from([n, -n]))
 
     def arr(draw, size, nonzero=False, e=None):
@@ -286,18 +290,18 @@ def strategy(fam):
             g = groups[draw(st.integers(0, ngroups - 1))]
             k = draw(st.integers(2, len(g['pool'])))
             ins = draw(st.permutations(g['pool']))[:k]
-            if roll(draw, 29) == 0:
+            if rare(draw, 29):
                 ins = ins + [ins[0]]                       # the same input twice (accepted with a warning)
             sf = None
-            if roll(draw, 3) > 0:
+            if (not rare(draw, 3)):
                 sf = [draw(st.sampled_from([4, -4, 4, -4, 2, 10, -6, 1, 0, 400, -1])) if draw(st.booleans())
                       else draw(st.integers(-40, 40)) for _ in ins]
             e = {'out': f"o{i}", 'ins': list(ins), 'vec': g['vec'], 'len': g['len'], 'units': g['units'], 'sf': sf,
                  'sfk': draw(st.sampled_from(['list', 'tuple', 'array'])), 'ins_tuple': draw(st.booleans()),
                  'ctor': draw(st.booleans()), 'explicit_defaults': draw(st.booleans())}
-            if roll(draw, 4) == 0:
+            if rare(draw, 4):
                 e['ref'] = draw(st.sampled_from([8, 40, 2, -4]))
-            if roll(draw, 4) == 0:
+            if rare(draw, 4):
                 e['ref0'] = draw(st.sampled_from([1, 6, -2]))        # never equal to ref
             eqs.append(e)
             for n in ins:
@@ -305,7 +309,7 @@ def strategy(fam):
         vals = {}
         for n, g in sorted(used.items()):
             vals[n] = src(draw, arr(draw, g['vec'] * g['len']), g['units'])
-        return {'comp': 'addsub', 'eqs': eqs, 'vals': vals, 'complex': roll(draw, 9) == 0}
+        return {'comp': 'addsub', 'eqs': eqs, 'vals': vals, 'complex': rare(draw, 9)}
 
     # ---- MuxComp ----------------------------------------------------------------------------------------
     @st.composite
@@ -347,7 +351,7 @@ def strategy(fam):
                 g = groups[draw(st.integers(0, ngroups - 1))]
                 names = sorted(g['pool'])
                 a = draw(st.sampled_from(names))
-                if roll(draw, 24) == 0:
+                if rare(draw, 24):
                     b = a
                 else:
                     b = draw(st.sampled_from([n for n in names if n != a]))
@@ -372,7 +376,7 @@ def strategy(fam):
         prods, vals = [], {}
         Apool, xpool = {}, {}
         for i in range(nprod):
-            reuse_A = Apool and roll(draw, 3) == 0
+            reuse_A = Apool and rare(draw, 3)
             if reuse_A:
                 A = draw(st.sampled_from(sorted(Apool)))
                 n, m, Au = Apool[A]
@@ -381,7 +385,7 @@ def strategy(fam):
                 n, m, Au = draw(st.integers(1, 3)), draw(st.integers(1, 3)), units_pair(draw)[0]
                 Apool[A] = (n, m, Au)
             cands = [x for x in sorted(xpool) if xpool[x][0] == m]
-            if cands and roll(draw, 2) == 0:
+            if cands and rare(draw, 2):
                 x = draw(st.sampled_from(cands))
                 xu = xpool[x][1]
             else:
@@ -403,7 +407,7 @@ def strategy(fam):
         nm = draw(st.integers(1, 3))
         mags, vals, pool = [], {}, {}
         for i in range(nm):
-            if pool and roll(draw, 3) == 0:
+            if pool and rare(draw, 3):
                 nin = draw(st.sampled_from(sorted(pool)))
             else:
                 nin = f"a{i}"
@@ -424,7 +428,7 @@ def strategy(fam):
         kind = draw(st.sampled_from(['special', 'special', 'small', 'any']))
         out = []
         for _ in range(size):
-            if kind == 'special' or roll(draw, 2) == 0:
+            if kind == 'special' or rare(draw, 2):
                 out.append(draw(st.sampled_from(SPECIAL_RHS)))
             elif kind == 'small':
                 out.append(draw(st.integers(-16, 16)))
@@ -440,11 +444,11 @@ def strategy(fam):
         o = {'name': f"e{i}", 'eq_units': eq_units, 'shape': shape,
              'use_mult': draw(st.booleans()), 'normalize': draw(st.sampled_from([True, True, True, False])),
              'rhs_val': None, 'mult_val': None}
-        if roll(draw, 3) == 0:
+        if rare(draw, 3):
             o['lhs_name'] = f"L{i}"
-        if roll(draw, 3) == 0:
+        if rare(draw, 3):
             o['rhs_name'] = f"R{i}"
-        if o['use_mult'] and roll(draw, 3) == 0:
+        if o['use_mult'] and rare(draw, 3):
             o['mult_name'] = f"M{i}"
         if draw(st.booleans()):
             o['rhs_val'] = draw(st.sampled_from(SPECIAL_RHS)) if (draw(st.booleans()) or shape is None) \
@@ -458,13 +462,13 @@ def strategy(fam):
 
     def eq_vals(draw, o, size, vals, lhs_u, rhs_u, mult_u, prefix_names):
         ln, rn, mn = prefix_names
-        if roll(draw, 5) > 0:
+        if (not rare(draw, 5)):
             vals[ln] = src(draw, arr(draw, size), lhs_u)
-        if roll(draw, 3) > 0:
+        if (not rare(draw, 3)):
             enc = rhs_arr(draw, size)
             vals[rn] = src(draw, enc, rhs_u)
-        if o['use_mult'] and roll(draw, 3) > 0:
-            vals[mn] = src(draw, arr(draw, size, nonzero=roll(draw, 5) > 0), mult_u)
+        if o['use_mult'] and (not rare(draw, 3)):
+            vals[mn] = src(draw, arr(draw, size, nonzero=(not rare(draw, 5))), mult_u)
 
     @st.composite
     def eq(draw):
@@ -473,7 +477,7 @@ def strategy(fam):
         for i in range(n):
             o, shape, size = eq_like(draw, i, False)
             o['shk'] = draw(st.sampled_from(['shape', 'shape', 'val']))
-            o['add_constraint'] = roll(draw, 2) == 0
+            o['add_constraint'] = rare(draw, 2)
             o['cons'] = {}
             if o['add_constraint']:
                 kind = draw(st.sampled_from(['none', 'ref', 'ref0', 'refs', 'scaler', 'adder', 'both']))
@@ -506,18 +510,18 @@ def strategy(fam):
                 b['sizing'] = draw(st.sampled_from(opts))
             fam_units = L.FAMILIES[L.UNIT[b['eq_units']][0]] if b['eq_units'] else ['m', 'cm', 'ft']
             for side, p in (('lhs', 6), ('rhs', 6), ('mult', 8)):
-                if roll(draw, p) == 0:
+                if rare(draw, p):
                     d = {}
                     if side == 'mult':
                         d['units'] = draw(st.sampled_from(['s', 'kg', 'm']))
-                    elif roll(draw, 3) > 0:
+                    elif (not rare(draw, 3)):
                         d['units'] = draw(st.sampled_from(fam_units))
-                    if side == 'rhs' and roll(draw, 2) == 0 and not isinstance(b['rhs_val'], list):
+                    if side == 'rhs' and rare(draw, 2) and not isinstance(b['rhs_val'], list):
                         d['val'] = draw(st.sampled_from(SPECIAL_RHS))
                     b[side + '_kw'] = d
-            if i > 0 and roll(draw, 14) == 0 and bals[0].get('lhs_kw') is not None:
+            if i > 0 and rare(draw, 14) and bals[0].get('lhs_kw') is not None:
                 b['share_lhs_kw'] = True
-            if b['ctor'] and i == 0 and b.get('rhs_kw') is not None and roll(draw, 2) > 0:
+            if b['ctor'] and i == 0 and (b.get('rhs_kw') is not None or b.get('lhs_kw') is not None) and (not rare(draw, 2)):
                 b['ctor'] = False                          # keep the constructor + rhs_kwargs combination rare
             bals.append(b)
             nm = b['name']
@@ -558,7 +562,7 @@ def strategy(fam):
             order = draw(st.integers(2, 5))
             opts['order'] = order
         ncp = draw(st.integers(max(I.MIN_CP[method], order if method == 'bsplines' else 0), 8))
-        use_num = method == 'bsplines' or roll(draw, 3) == 0
+        use_num = method == 'bsplines' or rare(draw, 3)
         if use_num:
             x_cp, num_cp = None, ncp
             lo, hi = 0, 8                                   # x_interp in eighths
@@ -572,10 +576,10 @@ def strategy(fam):
             lo, hi = 2 * x_cp[0], 2 * x_cp[-1]
         ni = draw(st.integers(2, 7))
         pts = set()
-        extrap = method != 'bsplines' and roll(draw, 3) == 0
+        extrap = method != 'bsplines' and rare(draw, 3)
         pad = max(1, (hi - lo) // 4) if extrap else 0
         for _ in range(ni):
-            if x_cp is not None and roll(draw, 2) == 0:
+            if x_cp is not None and rare(draw, 2):
                 pts.add(2 * draw(st.sampled_from(x_cp)))       # exactly on a node
             else:
                 pts.add(draw(st.integers(lo - pad, hi + pad)))
@@ -589,15 +593,15 @@ def strategy(fam):
         for i in range(ns):
             u = units_pair(draw)[0]
             s_ = {'cp': f"ycp{i}", 'out': f"y{i}", 'units': u}
-            if roll(draw, 2) == 0:
+            if rare(draw, 2):
                 s_['ycp'] = arr(draw, v * ncp)
                 s_['ycp2d'] = True if v > 1 else draw(st.booleans())
-                s_['ycpk'] = 'list' if roll(draw, 5) == 0 else 'array'
+                s_['ycpk'] = 'list' if rare(draw, 5) else 'array'
             if s_.get('ycp') is None or draw(st.booleans()):
                 vals[s_['cp']] = src(draw, arr(draw, v * ncp), u)
             splines.append(s_)
         return {'comp': 'spline', 'method': method, 'vec': v, 'x_cp': x_cp, 'num_cp': num_cp, 'x_interp': pts,
-                'xik': 'list' if roll(draw, 11) == 0 else 'array', 'xck': draw(st.sampled_from(['list', 'array'])),
+                'xik': 'list' if rare(draw, 11) else 'array', 'xck': draw(st.sampled_from(['list', 'array'])),
                 'opts': opts, 'splines': splines, 'vals': vals}
 
     return {'addsub': addsub(), 'mux': mux(), 'dot': two_operand('dot', True), 'cross': two_operand('cross', False),
